@@ -247,6 +247,22 @@ def law_operands(run, rng, a, b, v, engine, case) -> None:
                                   case=case, engine=engine, key='imatmul-differs')
                 if snap(A) != sa:
                     run.violation(f'{vk} @= {ka} changed the right operand', case=case, engine=engine, key='matmul-mutates-operand')
+        # --- the same OBJECT on both sides: X @ X and X @= X are the rotation applied twice
+        maa = mmul(ma, ma)
+        X = make_rot(ka, a)
+        sq = X @ X
+        run.count('self_aliased_products')
+        Xi = make_rot(ka, a)
+        Xi0 = Xi
+        Xi @= Xi
+        for label, res in ((f'{ka} @ (the same object)', sq), (f'{ka} @= (itself)', Xi)):
+            got_m = mat_entries(res) if isinstance(res, MatrixBase) else model_matrix(res.pitch, res.yaw, res.roll)
+            tol = 4e-12 if isinstance(res, MatrixBase) else 1e-9 + (6 * horiz(maa) if horiz(maa) <= 0.001 else 0.0)
+            if maxdiff(got_m, maa) > tol:
+                run.violation(f'{label} differs from the rotation applied twice by {maxdiff(got_m, maa):.3g}', case=case, engine=engine,
+                              key='self-aliased-product-wrong')
+        if ka in ('FrozenAngle', 'FrozenMatrix') and snap(Xi0) != sa:
+            run.violation(f'{ka} @= itself changed the frozen operand', case=case, engine=engine, key='frozen-mutated')
         # --- rotation @ rotation
         for kb in ROT_KINDS:
             B = make_rot(kb, b)
@@ -494,7 +510,7 @@ def main(run, shard=(0, 1)) -> None:
     probe.check_reached(run)
     if shard[0] == 0:
         native_engine(run)
-    run.require('near_twin_evaluations', 'reflected_direct_calls', 'from_angle_checked', 'to_angle_roundtrips', 'to_angle_gimbal_branch', 'operand_combos', 'assoc_checked',
+    run.require('self_aliased_products', 'near_twin_evaluations', 'reflected_direct_calls', 'from_angle_checked', 'to_angle_roundtrips', 'to_angle_gimbal_branch', 'operand_combos', 'assoc_checked',
                 'inverse_checked', 'constructed_rotations')
 
 
